@@ -106,7 +106,8 @@ def whiteBoxPtr (t : Ptr.PTable) : String :=
   let order := match t.order with | some l => idsStr l | none => "FAULT"
   s!"wb cap={t.cap} alloc={if t.allocated then 1 else 0} blocks={t.blocks} " ++
   s!"chains={if chains.isEmpty then "-" else "|".intercalate chains} free={idsStr free} order={order}" ++
-  (if bs.all cellsOk then "" else " CELL-MISMATCH")
+  (if bs.all cellsOk then "" else " CELL-MISMATCH") ++
+  (if t.orderBack == t.order.map List.reverse then "" else " BACK-MISMATCH")
 
 def tab (s : String) : Option Bool :=
   if s = "0" then some false else if s = "1" then some true else none
